@@ -1,6 +1,7 @@
 import BoltonsVerif.C15.Proofs
 import BoltonsVerif.C15.RoundingCarrier
 import BoltonsVerif.C15.SessionProofs
+import BoltonsVerif.C15.B64Proofs
 /-
 C15 — property theorems for the model of `backoff_iter` / `backoff`.
 
@@ -229,6 +230,77 @@ theorem default_count_defined_of_reaches {p : Params α} (hp : ValidParams p) (h
     hp.valid.start_nonneg (by rwa [cap_of_le hp.valid.start_le_stop]) hf
   exact ⟨m, by simp [resolveCount, hc, hm]⟩
 
+/-! #### what the correspondence's acceptance mode rests on -/
+
+/-- jitter only scales the values: for an acceptable `jitter` the call as made and the same call
+    with jitter off (any draws) have the same kind of outcome - ValueError, the same number of
+    values, endless - and every value of the former is `emit` applied to the un-jittered delay
+    at its position.  (The driver judges a call with jitter by running it with jitter off and
+    testing every observed value against the delay at its position.) -/
+theorem jitter_only_scales (p : Params α) (hj : JitterOk p) (fuel : Nat) (r r' : Nat → α) :
+    match backoffIter fuel r' { p with jitter := 0 } with
+    | .valueError => backoffIter fuel r p = .valueError
+    | .fuelOut => backoffIter fuel r p = .fuelOut
+    | .finite bs => ∃ n, bs = (List.range n).map (seqAt p.factor p.stop p.start) ∧
+        backoffIter fuel r p = .finite ((List.range n).map (yieldAt r p))
+    | .endless b => b = seqAt p.factor p.stop p.start ∧ backoffIter fuel r p = .endless (yieldAt r p) := by
+  have hjb := jitterBad_false hj
+  have hjb0 : jitterBad { p with jitter := (0 : α) } = false := jitterBad_false (Or.inl rfl)
+  unfold backoffIter
+  rw [rangeBad_jitter, resolveCount_jitter, hjb, hjb0]
+  by_cases hb : rangeBad p = true
+  · simp [hb]
+  · simp only [hb]
+    cases resolveCount fuel p with
+    | bad => simp
+    | fuelOut => simp
+    | rep => simp [emit_off]
+    | num n =>
+      simp only [Bool.false_eq_true, if_false]
+      exact ⟨n, by simp [valsFrom_eq_map, emit_off], by simp [valsFrom_eq_map]⟩
+
+/-- the statement fixes the LAST value of a default-count run, not the number of values: whenever
+    the driver accepts an observed number `m` of values for `count=None` (`acceptCount` changes the
+    parameters), `m` is at least the minimal default count, the call is judged as `count=m`, its
+    values are the (jittered) delays at positions `0 … m-1`, and the un-jittered delay at the last
+    position is `stop` - so every clause of the statement holds for the accepted run.  A smaller
+    `m` is never accepted (`acceptCount` returns `p`: the run is compared with the minimal one). -/
+theorem accepted_default_count {p : Params α} (hp : ValidParams p) (hj : JitterOk p) (hc : p.count = .dflt)
+    (fuel m : Nat) (r : Nat → α) :
+    acceptCount fuel p m = p ∨
+    ∃ n, resolveCount fuel p = .num n ∧ n ≤ m ∧ 1 ≤ m ∧
+      backoffIter fuel r (acceptCount fuel p m) = .finite ((List.range m).map (yieldAt r p)) ∧
+      seqAt p.factor p.stop p.start (m - 1) = p.stop ∧
+      (p.jitter = 0 → ((List.range m).map (yieldAt r p)).getLast? = some p.stop) := by
+  cases hres : resolveCount fuel p with
+  | bad => left; simp [acceptCount, hc, hres]
+  | fuelOut => left; simp [acceptCount, hc, hres]
+  | rep => left; simp [acceptCount, hc, hres]
+  | num n =>
+    by_cases hnm : n ≤ m
+    · right
+      have hd := default_count_last_is_stop hp hc fuel n hres
+      have hm1 : 1 ≤ m := by omega
+      have hstop : seqAt p.factor p.stop p.start (m - 1) = p.stop := by
+        have := seqAt_stays hp.valid hd.2.1 (m - n)
+        rwa [show n - 1 + (m - n) = m - 1 by omega] at this
+      have hacc : acceptCount fuel p m = { p with count := .num (m : Int) } := by
+        simp [acceptCount, hc, hres, hnm]
+      refine ⟨n, rfl, hnm, hm1, ?_, hstop, ?_⟩
+      · rw [hacc]
+        have hp' : ValidParams ({ p with count := .num (m : Int) } : Params α) := ⟨hp.valid, hp.factor_ge⟩
+        have hj' : JitterOk ({ p with count := .num (m : Int) } : Params α) := hj
+        have hk : ¬ ((m : Int) < 0) := by omega
+        simp [backoffIter, rangeBad_false hp', resolveCount, jitterBad_false hj', valsFrom_eq_map, hk]
+      · intro hj0
+        obtain ⟨k, rfl⟩ : ∃ k, m = k + 1 := ⟨m - 1, by omega⟩
+        rw [List.range_succ, List.map_append, List.getLast?_append]
+        simp only [List.map_cons, List.map_nil, List.getLast?_singleton, Option.some_or]
+        simp only [yieldAt, hj0, emit_off]
+        simp only [Nat.add_sub_cancel] at hstop
+        rw [hstop]
+    · left; simp [acceptCount, hc, hres, hnm]
+
 end Order
 section Exact
 
@@ -396,7 +468,165 @@ theorem validation_iff (p : Params Rat) (hc : p.count ≠ .dflt) (fuel : Nat) (r
           | rep => simp only [hres'] at h'; split at h' <;> simp at h'
           | num n => simp only [hres'] at h'; split at h' <;> simp at h'
 
+/-! #### the jitter clause as the correspondence judges it -/
+
+/-- `jitAccept` with no slack IS the statement's clause: the value lies between the un-jittered
+    value `b` and `b * (1 - j)`, inclusive -/
+theorem jitAccept_iff (b j w : Rat) :
+    jitAccept 0 b j w = true ↔ (min b (b * (1 - j)) ≤ w ∧ w ≤ max b (b * (1 - j))) := by
+  unfold jitAccept
+  simp only [Bool.and_eq_true, decide_eq_true_eq]
+  constructor <;> intro h <;> constructor <;> grind
+
+/-- slack only widens the interval (the `F` instance allows `tolF`, the `Q` instance nothing) -/
+theorem jitAccept_tol_mono (tol b j w : Rat) (ht : 0 ≤ tol) (h : jitAccept 0 b j w = true) :
+    jitAccept tol b j w = true := by
+  unfold jitAccept at h ⊢
+  simp only [Bool.and_eq_true, decide_eq_true_eq] at h ⊢
+  constructor <;> grind
+
+/-- every value the model yields is accepted: for valid parameters, `j ∈ [-1, 1]` and draws in
+    `[0, 1)` the value at any position passes the test against the un-jittered delay there -/
+theorem model_values_accepted (p : Params Rat) (h0 : 0 ≤ p.start) (h1 : p.start ≤ p.stop) (hs : 0 < p.stop)
+    (hf : 1 ≤ p.factor) (hj : -1 ≤ p.jitter ∧ p.jitter ≤ 1) (r : Nat → Rat) (hr : ∀ i, 0 ≤ r i ∧ r i < 1)
+    (i : Nat) : jitAccept 0 (seqAt p.factor p.stop p.start i) p.jitter (yieldAt r p i) = true := by
+  rw [jitAccept_iff]
+  have := jitter_bounds p h0 h1 hs hf r hr i
+  by_cases hj0 : 0 ≤ p.jitter
+  · have := this.1 hj0 hj.2; grind
+  · have := this.2 hj.1 (by grind); grind
+
+/-- so is the multiplicative form `b * (1 - j * r)` of the same draw (a rewrite of the loop a
+    maintainer may well make): over the rationals it is the very same number … -/
+theorem emit_mul_form (b j r : Rat) (hj : j ≠ 0) : b * (1 - j * r) = emit j r b := by
+  unfold emit
+  have : ¬ (j == 0) = true := by simpa using hj
+  simp only [this]
+  grind
+
+/-- … and an accepted value comes from SOME draw in `[0, 1]`: for `b ≠ 0`, `j ≠ 0` an accepted
+    `w` is `emit j r b` for `r = (b - w) / (b * j)`, which lies in `[0, 1]` - acceptance lets in
+    nothing but points of the model's own range (closed at the far end, as the statement says) -/
+theorem accepted_is_some_draw (b j w : Rat) (hb : 0 < b) (hj : j ≠ 0)
+    (h : jitAccept 0 b j w = true) :
+    ∃ r : Rat, 0 ≤ r ∧ r ≤ 1 ∧ emit j r b = w := by
+  rw [jitAccept_iff] at h
+  have hbj : b * j ≠ 0 := by
+    intro e
+    rcases Rat.mul_eq_zero.mp e with e | e
+    · grind
+    · exact hj e
+  have hq : (b - w) / (b * j) * (b * j) = b - w := Rat.div_mul_cancel hbj
+  generalize (b - w) / (b * j) = q at hq
+  have hem : emit j q b = w := by
+    unfold emit
+    have : ¬ (j == 0) = true := by simpa using hj
+    simp only [this]
+    grind
+  refine ⟨q, ?_, ?_, hem⟩
+  · by_cases hpos : 0 < j
+    · have hd : 0 < b * j := Rat.mul_pos hb hpos
+      apply Rat.not_lt.mp
+      intro hq0
+      have := Rat.mul_lt_mul_of_pos_left hq0 hd
+      grind
+    · have hd : 0 < b * (-j) := Rat.mul_pos hb (by grind)
+      apply Rat.not_lt.mp
+      intro hq0
+      have := Rat.mul_lt_mul_of_pos_left hq0 hd
+      grind
+  · by_cases hpos : 0 < j
+    · have hd : 0 < b * j := Rat.mul_pos hb hpos
+      apply Rat.not_lt.mp
+      intro hq1
+      have := Rat.mul_lt_mul_of_pos_left hq1 hd
+      grind
+    · have hd : 0 < b * (-j) := Rat.mul_pos hb (by grind)
+      apply Rat.not_lt.mp
+      intro hq1
+      have := Rat.mul_lt_mul_of_pos_left hq1 hd
+      grind
+
 end Exact
+
+/-! ### IEEE doubles
+
+`B64` (B64.lean) is a natural-number model of the non-negative binary64 numbers with the
+correctly rounded product (round to nearest, ties to even; subnormals, overflow to `inf`).  The
+driver runs the model of `backoff_iter` on it (instance `D`) and every value agrees bit for bit
+with CPython, so `B64.mul` is what `cur *= factor` computes.  The order layer's one assumption
+about the arithmetic - a delay times a factor ≥ 1 is not smaller - is PROVED for it
+(`b64_mul_ge`), hence every order-layer clause holds for the doubles the code computes, from
+the statement's plain hypotheses. -/
+section Doubles
+
+/-- rounding never undoes growth: a finite double times a factor ≥ 1.0 is a double that is not
+    smaller (also when the exact product is not representable, is subnormal, or overflows) -/
+theorem b64_mul_ge (x f : B64) (hf : (1 : B64) ≤ f) (hx : x.bits < B64.INF) : x ≤ x * f :=
+  B64.infl f hf x hx
+
+/-- multiplying by 1.0 is exact on doubles: representable values round to themselves
+    (`B64.rnd_exact`), so with `factor = 1.0` every delay is followed by itself -/
+theorem b64_mul_one (x : B64) (hx : x.bits < B64.INF) : x * 1 = x := B64.mul_one x hx
+
+/-- the order-layer hypotheses follow from the statement's plain ones over `B64`
+    (`0 ≤ start` holds for every element of the carrier) -/
+theorem b64_validParams (p : Params B64) (h1 : p.start ≤ p.stop) (hs : 0 < p.stop)
+    (hfin : p.stop.bits < B64.INF) (hf : 1 ≤ p.factor) : ValidParams p :=
+  ⟨{ B64.laws p.factor p.stop hf hs hfin with start_nonneg := Nat.zero_le _, start_le_stop := h1 }, hf⟩
+
+/-- all shape clauses at once for doubles: first value `start`; 0 is followed by `min(1, stop)`;
+    never decreasing; never above `stop`; a non-zero value is followed by ONE correctly rounded
+    multiplication by `factor`, capped at `stop`; once at `stop`, always at `stop` -/
+theorem b64_shape (factor stop start : B64) (h1 : start ≤ stop) (hs : 0 < stop)
+    (hfin : stop.bits < B64.INF) (hf : 1 ≤ factor) :
+    seqAt factor stop start 0 = start ∧
+    (start = 0 → seqAt factor stop start 1 = if stop < 1 then stop else 1) ∧
+    (∀ i, seqAt factor stop start i ≤ seqAt factor stop start (i + 1)) ∧
+    (∀ i, seqAt factor stop start i ≤ stop) ∧
+    (∀ i, seqAt factor stop start i ≠ 0 →
+      seqAt factor stop start (i + 1) =
+        if stop < seqAt factor stop start i * factor then stop else seqAt factor stop start i * factor) ∧
+    (∀ i j, seqAt factor stop start i = stop → i ≤ j → seqAt factor stop start j = stop) := by
+  have hv : Valid factor stop start :=
+    { B64.laws factor stop hf hs hfin with start_nonneg := Nat.zero_le _, start_le_stop := h1 }
+  refine ⟨rfl, ?_, fun i => monotone hv (Nat.le_succ i), fun i => (le_stop hv i).2,
+    fun i hne => grows_by_factor_until_cap hv i hne, fun i j h hij => stays_at_stop hv h hij⟩
+  intro h; subst h
+  exact zero_then_min_one_stop factor stop
+
+/-- the default count on doubles: the call raises ValueError (only when a step makes no progress:
+    rounding absorbed the factor on a subnormal), or - model artefact - runs out of fuel, or yields
+    the delays at positions `0 … n-1` where the last one is `stop` -/
+theorem b64_default_count_last_is_stop (p : Params B64) (h1 : p.start ≤ p.stop) (hs : 0 < p.stop)
+    (hfin : p.stop.bits < B64.INF) (hf : 1 ≤ p.factor) (hj : p.jitter = 0) (hc : p.count = .dflt)
+    (fuel : Nat) (r : Nat → B64) :
+    backoffIter fuel r p = .valueError ∨ backoffIter fuel r p = .fuelOut ∨
+    ∃ n, 1 ≤ n ∧ backoffIter fuel r p = .finite ((List.range n).map (seqAt p.factor p.stop p.start)) ∧
+      ((List.range n).map (seqAt p.factor p.stop p.start)).getLast? = some p.stop := by
+  have hp := b64_validParams p h1 hs hfin hf
+  rcases default_count_outcome hp (Or.inl hj) hc fuel r with h | h | ⟨n, hn, hout, _, hlast⟩
+  · exact Or.inl h
+  · exact Or.inr (Or.inl h)
+  · have e : (List.range n).map (yieldAt r p) = (List.range n).map (seqAt p.factor p.stop p.start) := by
+      apply List.map_congr_left
+      intro i _
+      simp only [yieldAt, hj, emit_off]
+    rw [e] at hout hlast
+    exact Or.inr (Or.inr ⟨n, hn, hout, hlast hj⟩)
+
+/-- exactly `count` values on doubles, the i-th being the delay at position `i` -/
+theorem b64_length_eq_count (p : Params B64) (h1 : p.start ≤ p.stop) (hs : 0 < p.stop)
+    (hfin : p.stop.bits < B64.INF) (hf : 1 ≤ p.factor) (hj : p.jitter = 0) (k : Int) (hk : 0 ≤ k)
+    (hc : p.count = .num k) (fuel : Nat) (r : Nat → B64) :
+    ∃ vals, backoffIter fuel r p = .finite vals ∧ vals.length = k.toNat ∧
+      ∀ i, i < k.toNat → vals[i]? = some (seqAt p.factor p.stop p.start i) := by
+  obtain ⟨vals, h1', h2, h3⟩ := length_eq_count (b64_validParams p h1 hs hfin hf) (Or.inl hj) k hk hc fuel r
+  refine ⟨vals, h1', h2, fun i hi => ?_⟩
+  rw [h3 i hi]
+  simp only [yieldAt, hj, emit_off]
+
+end Doubles
 
 /-! ### sessions: several calls, the caller changing the lists it was handed, generators advanced
 in any interleaving.  Every clause above is about ONE call; these theorems say that a call made
@@ -553,6 +783,42 @@ example : (match backoff 10 (fun _ => 0)
 example : (match backoff 3 (fun _ => 0)
     ({ start := 1, stop := 10, factor := 2, count := .dflt, jitter := 0 } : Params Rat) with
     | .fuelOut => true | _ => false) = true := by decide +kernel
+
+-- acceptance: the delay 8 with jitter 1/2 allows exactly [4, 8]; with jitter -1 exactly [8, 16]
+example : jitAccept 0 8 (1/2) 6 = true ∧ jitAccept 0 8 (1/2) 4 = true ∧ jitAccept 0 8 (1/2) 8 = true ∧
+    jitAccept 0 8 (1/2) 3 = false ∧ jitAccept 0 8 (1/2) 9 = false ∧
+    jitAccept 0 8 (-1) 16 = true ∧ jitAccept 0 8 (-1) 7 = false := by decide +kernel
+-- the two forms of the jittered value (draw 3/4, jitter 1/2, delay 8): 8 - 8*(1/2)*(3/4) = 8*(1 - (1/2)*(3/4)) = 5
+example : emit (1/2 : Rat) (3/4) 8 = 5 ∧ (8 : Rat) * (1 - (1/2) * (3/4)) = 5 := by decide +kernel
+-- default count of backoff(1, 10) is 5; an implementation producing 6 values (one more stop) is judged as
+-- count=6, one producing 3 (last value 4, not stop) is compared with the model's own 5 values
+example : (backoff 10 (fun _ => 0) (acceptCount 10
+      ({ start := 1, stop := 10, factor := 2, count := .dflt, jitter := 0 } : Params Rat) 6)).vals?
+    = some [1, 2, 4, 8, 10, 10] := by decide +kernel
+example : (backoff 10 (fun _ => 0) (acceptCount 10
+      ({ start := 1, stop := 10, factor := 2, count := .dflt, jitter := 0 } : Params Rat) 3)).vals?
+    = some [1, 2, 4, 8, 10] := by decide +kernel
+
+-- doubles (B64): backoff(1.0, 10.0) == [1.0, 2.0, 4.0, 8.0, 10.0] by bit pattern …
+example : (backoff 10 (fun _ => 0)
+    ({ start := ⟨0x3ff0000000000000⟩, stop := ⟨0x4024000000000000⟩, factor := ⟨0x4000000000000000⟩,
+       count := .dflt, jitter := 0 } : Params B64)).vals?
+    = some [⟨0x3ff0000000000000⟩, ⟨0x4000000000000000⟩, ⟨0x4010000000000000⟩, ⟨0x4020000000000000⟩,
+            ⟨0x4024000000000000⟩] := by decide +kernel
+-- … the repaired float-edge defect: backoff(1.0, 10.000000000000002, factor=10.0) ends at stop (3 values) …
+example : (backoff 10 (fun _ => 0)
+    ({ start := ⟨0x3ff0000000000000⟩, stop := ⟨0x4024000000000001⟩, factor := ⟨0x4024000000000000⟩,
+       count := .dflt, jitter := 0 } : Params B64)).vals?
+    = some [⟨0x3ff0000000000000⟩, ⟨0x4024000000000000⟩, ⟨0x4024000000000001⟩] := by decide +kernel
+-- … inexact products: 0.1 * 3.0 rounds UP to 0.30000000000000004, and 5e-324 * 1.5 rounds to 1e-323 (ties to even)
+example : ((⟨0x3fb999999999999a⟩ : B64) * ⟨0x4008000000000000⟩ = ⟨0x3fd3333333333334⟩) ∧
+    ((⟨1⟩ : B64) * ⟨0x3ff8000000000000⟩ = ⟨2⟩) ∧ ((⟨1⟩ : B64) * ⟨0x3ff4000000000000⟩ = ⟨1⟩) := by decide +kernel
+-- … overflow: 1e308 * 10.0 = inf, which the cap brings back to stop
+example : (⟨0x7fe1ccf385ebc8a0⟩ : B64) * ⟨0x4024000000000000⟩ = ⟨B64.INF⟩ := by decide +kernel
+example : ValidParams
+    ({ start := ⟨1⟩, stop := ⟨0x7fefffffffffffff⟩, factor := ⟨0x3ff8000000000000⟩,
+       count := .dflt, jitter := 0 } : Params B64) :=
+  b64_validParams _ (by decide) (by decide) (by decide) (by decide)
 
 -- a session: the caller uses up the first result of backoff(1, 10); the second call with the very
 -- same arguments is complete again, and a third result is untouched by changes to the second
